@@ -36,6 +36,24 @@ func writeEvidenceFile(b *build, a *agg, prop, tier string, seed uint64, violati
 			switchFn[s.File]++
 		}
 	}
+	// fault kinds actually fired (not merely configured), per kind
+	fired := map[string]int64{}
+	for k, v := range a.faults {
+		fired[k] = v
+	}
+	for _, k := range []string{"writer_error_fired", "writer_short_write_fired", "writer_panic_fired", "visitor_abort_fired",
+		"operation_aborted_by_writer_fault_or_visitor_abort", "parse_aborted_by_panicking_error_callback", "syncpool_miss", "syncpool_drop"} {
+		fired[k] = a.probes[k]
+	}
+	fired["forced_yield_on_contended_lock_or_full_queue"] = a.forced
+	fired["preemption_at_yield_point"] = a.preempt
+	knobRuns := int64(0)
+	for k, v := range a.knobs {
+		if k != "0" {
+			knobRuns += int64(v)
+		}
+	}
+	fired["runs_with_block_size_knob_changed"] = knobRuns
 	if len(a.samples) == 0 {
 		a.samples = append(a.samples, "no non-trivial run in this batch")
 	}
@@ -53,7 +71,7 @@ func writeEvidenceFile(b *build, a *agg, prop, tier string, seed uint64, violati
 		"task_switches":                    a.switches,
 		"forced_yields_on_contended_locks": a.forced,
 		"distinct_interleavings":           map[string]interface{}{"measure": "distinct hashes of the full decision log (step, site, from, to, kind)", "count": len(a.interleavings)},
-		"faults_fired":                     a.faults,
+		"faults_fired":                     fired,
 		"faults_not_applicable":            "message loss/duplication/reordering, partitions, clock skew, torn or lost disk writes, failing syscalls, allocation failure: the code under test has no network, clock, disk, reader or recoverable allocation seam (DESIGN.md section 1)",
 		"reach_probes":                     a.probes,
 		"schedulers_used":                  a.modes,
